@@ -228,8 +228,24 @@ def _helpers(ctx: Ctx, r: RuleResult, pc, self_t: Term):
         r.ok('HplQuantifier: three hygiene errors (variable in own domain; re-binding; variable unused)')
     else:
         r.fail('HplQuantifier:hygiene', f'expected three HplSanityError raises in the domain/condition validators, found {len(msgs)}', qc.where)
-    unused_ok = False
     self_q = Sym('self', 'HplQuantifier')
+    # each hygiene check walks the WHOLE sub-tree (iterate()), not just its root
+    for fld, what in (('domain', 'the variable must not occur anywhere in its own domain'), ('condition', 'no nested quantifier may bind the same variable')):
+        walked = False
+        for v in qc.all_validators(fld):
+            ps = v.params()
+            val = Sym('value')
+            for o in ev.run(v, {ps[0]: self_q, ps[2]: val}):
+                for e in o.effects:
+                    if isinstance(e, Loop) and isinstance(e.iter, Call) and call_name(e.iter) == 'iterate' and call_recv(e.iter) == val:
+                        for rg, exc in e.raises:
+                            if 'HplSanityError' in repr(exc) and any(pol and isinstance(t, Op) and t.op == '==' and Attr(self_q, 'variable') in t.args for t, pol in norm_guards(rg)):
+                                walked = True
+        if walked:
+            r.ok(f'HplQuantifier.{fld}: every node of the sub-tree is compared with the bound variable')
+        else:
+            r.fail(f'HplQuantifier.{fld}:walk', f'the hygiene check of {fld} does not walk the whole sub-tree with iterate() ({what}): an occurrence below the root goes unnoticed', qc.where)
+    unused_ok = False
     for v in qc.all_validators('condition'):
         ps = v.params()
         outs = ev.run(v, {ps[0]: self_q, ps[2]: Sym('value')})
